@@ -303,7 +303,8 @@ def check_packet_init(ctx):
                 continue
             item = '<item of %d>' % lp.sub['phi']
             for bp in lp.sub['body']:
-                if bp.end[0] in ('break', 'continue', 'return') and not any("caught(" in g for g in gtexts(bp)):
+                # (a continue after the field was initialised skips nothing: the call count below decides)
+                if bp.end[0] in ('break', 'return') and not any("caught(" in g for g in gtexts(bp)):
                     ctx.violation(rule, fi, 'loop body ends in %s' % bp.end[0], 'the constructor can skip fields', lp.lineno, clause='c')
                 inits = [e for e in bp.effects if e.kind == 'call' and canon(e.call.func) == '%s[1].init' % item]
                 if len(inits) != 1:
